@@ -57,6 +57,7 @@ type ersOutJ struct {
 	// what the stored replica set says after the sync
 	StoredReconcileError string `json:"storedReconcileError"`
 	StoredCleanupDone    string `json:"storedCleanupDone"`
+	StoredCanaryFailed   string `json:"storedCanaryFailed"`
 }
 
 func normErsStatusTimes(st *canon.ERSStatus, lo, hi, now int64) {
@@ -364,7 +365,12 @@ func streamErsReconcile(r *rand.Rand, i int, tier string) *Case {
 	// one case in five: one of the first API writes of the sync is rejected, or applied with the
 	// answer lost (the writes attempted stay the planned ones; the status then reports the error)
 	var failAt map[int]string
-	if r.Intn(5) == 0 {
+	concurrentFail := false
+	if r.Intn(12) == 0 {
+		// no call fails, but somebody marks the replica set Canary-Failed while the sync is in flight
+		failAt = map[int]string{-2: "concurrent-fail"}
+		concurrentFail = true
+	} else if r.Intn(5) == 0 {
 		failAt = map[int]string{r.Intn(4): pick(r, "reject", "reject", "lost")}
 		if r.Intn(2) == 0 {
 			// and another writer touched the replica set meanwhile: its status write gets a 409
@@ -376,6 +382,7 @@ func streamErsReconcile(r *rand.Rand, i int, tier string) *Case {
 	sw := &switchClient{Client: cl}
 	rec, _ := ersctl.NewReconciler(ersctl.ReconcilerOptions{IsNodeAffinitySupported: aff}, sw, theScheme, logr.Discard(), record.NewFakeRecorder(1000))
 	warm := failAt == nil && r.Intn(4) == 0
+	_ = concurrentFail
 	if warm {
 		// the same reconciler instance has already synced this replica set in a world with other node
 		// labels / taints / settings selectors (its writes went to that other world); what it keeps
@@ -387,7 +394,7 @@ func streamErsReconcile(r *rand.Rand, i int, tier string) *Case {
 		sw.use(cl)
 	}
 	in := ersInput(cl, testNS, testEDS, target.Name, aff, rec)
-	statusConflict := failAt != nil && failAt[-2] != ""
+	statusConflict := failAt != nil && failAt[-2] == "conflict"
 	out, nowC := runErsReconcile(rec, cl, wl, testNS, testEDS, target.Name)
 	in["now"] = nowC
 	{
@@ -399,6 +406,8 @@ func streamErsReconcile(r *rand.Rand, i int, tier string) *Case {
 				out.StoredReconcileError = string(c.Status)
 			case edsv1.ConditionTypePodsCleanupDone:
 				out.StoredCleanupDone = string(c.Status)
+			case edsv1.ConditionTypeCanaryFailed:
+				out.StoredCanaryFailed = string(c.Status)
 			}
 		}
 	}
@@ -418,6 +427,15 @@ func streamErsReconcile(r *rand.Rand, i int, tier string) *Case {
 		}
 		if statusConflict {
 			cat = append(cat, "fault:conflict:status")
+		}
+		if concurrentFail {
+			cat = append(cat, "fault:concurrent-writer")
+			// did the sync reach a status write at all?
+			for _, o := range out.Order {
+				if strings.HasPrefix(o, "status:") {
+					in["concurrentFail"] = true
+				}
+			}
 		}
 	}
 	cat = append(cat, "kind:"+out.Kind, "target:"+target.Name)
